@@ -21,6 +21,17 @@ UNTYPED_SEEDS = [
 ]
 
 
+def keyword_table(path):
+    """spellings of all keyword and operator tokens, read from the token table of the tree under test"""
+    out = []
+    for m in re.finditer(r'\{KW_\w+,\s*0,\s*"((?:\\.|[^"\\])*)"', open(path).read()):
+        t = re.sub(r'\\(.)', r'\1', m.group(1))
+        if t.startswith('KW_') or t == 'n':
+            continue
+        out.append(t)
+    return out
+
+
 def typed_seeds():
     cs = families.all_cases('quick', ['F7', 'F9', 'F5'])
     pick = [cs[0][1], [c for f, c in cs if f == 'F9'][0]]
@@ -77,6 +88,20 @@ def main(tier):
             ms = [m for m in ms if m[0].startswith(('del@', 'swap@', 'ins(@', 'ins}@', 'ins"@'))]
         for lab, m in ms:
             inputs.append(('tseed%d:%s' % (si, lab), (progspace.PRELUDE + m).encode(), True, False))
+    # every keyword and operator of the token table, alone and in pairs, at the start of a file, after a statement, at the
+    # start of a line inside a #pile section and after an opening brace there, with and without a final newline
+    kws = keyword_table(b.B + '/src/token.c') + ['x', '1', '1.5', '"s"']
+    ctxs = [('start', ''), ('pile-line', '#pile\nf(a) ==\n  a\n'), ('stmt', 'x := 1;\n'), ('pile-brace', '#pile\nf(a) == {')]
+    nkw0 = len(inputs)
+    for cn, pre in ctxs:
+        for end in ('', '\n'):
+            for a in kws:
+                inputs.append(('kw:%s:%s:%s' % (cn, 'nl' if end else 'eof', a), (pre + a + end).encode(), False, False))
+            if tier == 'thorough' or cn in ('start', 'pile-line'):
+                for a in kws:
+                    for c in kws:
+                        inputs.append(('kw:%s:%s:%s %s' % (cn, 'nl' if end else 'eof', a, c), (pre + a + ' ' + c + end).encode(), False, False))
+    nkw = len(inputs) - nkw0
     # structural extremes
     for d in (10, 255, 256, 257, 2000) + ((10000,) if tier == 'thorough' else ()):
         inputs.append(('nest-paren-%d' % d, ('x := ' + '(' * d + '1' + ')' * d + ';\n').encode(), False, False))
@@ -160,6 +185,9 @@ def main(tier):
             else:
                 site = sites[key0][0]
             key = 'site=%s,kind=%s' % (site, cls)
+            if site.startswith('unknown') and cls == 'bug':
+                # reported through the message system, no stack to key on: key on the message text
+                key = 'bug=%s' % re.sub(r'[^A-Za-z0-9]+', '-', det).strip('-')[:70]
         elif cls == 'hang':
             key = 'hang=%s' % label.split(':')[0]
         else:
@@ -171,7 +199,7 @@ def main(tier):
     ck.cov.update({
         'distinct_nontrivial': tot['err'] + (1 if tot['ok0'] else 0),
         'rule': 'all strings of length <= %d over a 24-symbol token-class alphabet (%d); every single-token delete/duplicate/swap/insert-trouble-token edit of %d untyped and %d typed seeds; '
-                'structural extremes; non-trivial = inputs rejected with a diagnostic (each is a distinct input)' % (n, nstr, len(UNTYPED_SEEDS), len(tseeds)),
+                'every keyword/operator of the token table alone and in pairs in file-start / after-statement / pile contexts with and without final newline (%d inputs); structural extremes; non-trivial = inputs rejected with a diagnostic (each is a distinct input)' % (n, nstr, len(UNTYPED_SEEDS), len(tseeds), nkw),
         'inputs': tot['n'], 'rejected_with_diagnostic': tot['err'], 'accepted_silently': tot['ok0'],
         'samples': ['x:=\\x80', '( { "s"', UNTYPED_SEEDS[2][:80], 'errors-256 (256 undefined names with -Mno-emax)'],
     })
